@@ -24,6 +24,9 @@ type Anchors struct {
 	// the type itself and the library structs it embeds (state moved into an
 	// embedded struct keeps its role)
 	ParserFam map[*types.Named]bool
+	// Deferred: why the function anchors could not be resolved ("" = resolved);
+	// raised when a rule that needs them runs
+	Deferred string
 	LexerFam  map[*types.Named]bool
 	SynErrT   *types.Named
 	JMESPathT *types.Named
@@ -181,7 +184,10 @@ func resolveAnchors(c *Ctx) *Anchors {
 		a.ExecSw = sws[0]
 	}
 	if a.Exec == nil {
-		lost("evaluator (method switching on astNodeType) not found")
+		// fatal for every rule that looks at the library's evaluator, parser or
+		// lexer through these anchors; the command-line rule does not
+		a.Deferred = "evaluator (method switching on astNodeType) not found"
+		return a
 	}
 	for _, f := range allFuncs(c.SLib) {
 		if f == a.Exec || f.Signature.Recv() == nil {
